@@ -115,7 +115,11 @@ func (n gnode) build() any {
 		s.SetSymbol(n.Sym)
 	}
 	if n.Delim != "" {
-		s.SetDelimiter(n.Delim)
+		if r := []rune(n.Delim); len(r) == 1 && r[0] < 0x20 {
+			s.SetDelimiter(r[0]) // a control character is handed over as a rune (round 14): the other argument form
+		} else {
+			s.SetDelimiter(n.Delim)
+		}
 	}
 	if n.Enc != 0 {
 		s.SetEncap(encLists[n.Enc]...)
@@ -518,7 +522,7 @@ func c02Cfgs(kind string, full bool) []gnode {
 	delims := []string{""}
 	if kind == "LIST" {
 		syms = []string{""}
-		delims = []string{"", ",", "é", " "}
+		delims = []string{"", ",", "é", " ", "\n"}
 	}
 	encs := []int{0, 1, 2, 3, 8, 9}
 	if !full {
@@ -570,6 +574,8 @@ func c02Trees(c *Ctx) []gnode {
 		cond("s", 3, gnode{T: "stack", Kind: "OR", Kids: []gnode{lf("a"), lf("b")}}),
 		{T: "cond", Kw: "p", Op: 4, Paren: true, Enc: 1, Kids: []gnode{lf("q")}}, {T: "cond", Kw: "p", Op: 5, NoPad: true, Paren: true, Kids: []gnode{lf("q")}},
 		cond("e", 1, lf("")),
+		// blanks at either end of a keyword belong to the keyword (visible where nothing pads or condenses)
+		{T: "cond", Kw: "cn ", Op: 1, NoPad: true, Kids: []gnode{lf("x")}}, {T: "cond", Kw: " cn", Op: 2, NoPad: true, Paren: true, Kids: []gnode{lf("x")}}, {T: "cond", Kw: " ", Op: 1, NoPad: true, Kids: []gnode{lf("x")}},
 		// user operators, two of them the zero value of their type
 		cond("cn", 101, lf("Jesse")), cond("cn", 102, lf("J*")), cond("cn", 103, lf("x")), {T: "cond", Kw: "cn", Op: 101, NoPad: true, Paren: true, Kids: []gnode{lf("Jesse")}},
 		cond("cn", 104, lf("Jesse")), cond("cn", 105, lf("J?")),
